@@ -7,7 +7,7 @@ use crate::tape::{Decider, St, Tape};
 use crate::val::{Gen, Val};
 use crate::world::*;
 use crate::zoo::{emp, ZooMsg};
-use flatty::{AlignedBytes, Flat};
+use flatty::AlignedBytes;
 use flatty_io::{AsyncReceiver, AsyncSender, Receiver, RecvError, Sender};
 use std::sync::Arc;
 
@@ -35,14 +35,17 @@ pub struct Plan {
 /// Build `v` (optionally default / tweaked) in `buf` exactly as the sender party will, and
 /// report (size, whole-value-validates).  Panics inside library code are caught by the caller.
 fn build_in<M: ZooMsg + ?Sized>(buf: &mut [u8], mp: &MsgPlan) -> Result<(usize, bool, Val), flatty::Error> {
-    let m: &mut M = if mp.use_default { M::default_in_place(buf)? } else { M::new_in_place(buf, emp::<M>(&mp.val))? };
-    if !mp.tweaks.is_empty() {
-        let mut d = Decider::from_tape(Tape { msgs: mp.tweaks.clone(), ..Default::default() });
-        m.tweak(&mut Gen::new(&mut d, St::Msgs, 3));
-    }
-    let size = m.size();
-    let valid = M::validate(m.as_bytes()).is_ok() && size <= m.as_bytes().len();
-    let val = m.read();
+    let (size, val) = {
+        let m: &mut M = if mp.use_default { M::default_in_place(buf)? } else { M::new_in_place(buf, emp::<M>(&mp.val))? };
+        if !mp.tweaks.is_empty() {
+            let mut d = Decider::from_tape(Tape { msgs: mp.tweaks.clone(), ..Default::default() });
+            m.tweak(&mut Gen::new(&mut d, St::Msgs, 3));
+        }
+        (m.size(), m.read())
+    };
+    // producer-side validity: the bytes the value was mapped from validate (this is the
+    // precondition of SendGuard's unchecked deref), and size() stays inside them
+    let valid = M::validate(buf).is_ok() && size <= buf.len();
     Ok((size, valid, val))
 }
 
@@ -135,11 +138,12 @@ pub fn make_plan<M: ZooMsg + ?Sized>(d: &mut Decider, stats: &mut Stats, n_msgs_
             let start = d.rec.msgs.len();
             let r = guarded(|| -> Result<(usize, bool, Val), flatty::Error> {
                 scratch.fill(0x5A);
-                let m: &mut M = if mp.use_default { M::default_in_place(&mut scratch)? } else { M::new_in_place(&mut scratch, emp::<M>(&mp.val))? };
-                m.tweak(&mut Gen::new(d, St::Msgs, 3));
-                let size = m.size();
-                let valid = M::validate(m.as_bytes()).is_ok() && size <= m.as_bytes().len();
-                let val = m.read();
+                let (size, val) = {
+                    let m: &mut M = if mp.use_default { M::default_in_place(&mut scratch)? } else { M::new_in_place(&mut scratch, emp::<M>(&mp.val))? };
+                    m.tweak(&mut Gen::new(d, St::Msgs, 3));
+                    (m.size(), m.read())
+                };
+                let valid = M::validate(&scratch).is_ok() && size <= scratch.len();
                 Ok((size, valid, val))
             });
             let tw: Vec<u32> = d.rec.msgs[start..].to_vec();
